@@ -219,6 +219,12 @@ pub fn drain<SA: StorageProvider, SB: StorageProvider>(
     let bound = missing0 + missing0 / 50 + 4;
     loop {
         let missing: BTreeSet<usize> = b_set.difference(a_set).copied().collect();
+        let caches_before: Vec<(Id, u64)> = ca
+            .heads()
+            .iter()
+            .chain(cb.heads().iter())
+            .map(|h| (*h.id.as_array(), h.max_cut.get()))
+            .collect();
         let s = session(a, b, ca, cb, session_base + out.sessions, buf_size, &b_ids)?;
         out.sessions += 1;
         if s.responses > 1 {
@@ -304,15 +310,20 @@ pub fn drain<SA: StorageProvider, SB: StorageProvider>(
             // Every such session re-sends >= 1 response (up to 100 commands) of the prefix both sides share
             // and the requester then records it in its peer cache, so their number is bounded by the
             // size of that shared prefix; beyond that the sync is stalled.
-            if out.zero_progress > common0 / 100 + 2 {
-                // Stalled. Listed finding (F20): the requester's sample was cut down to its peer-cache heads, all of
-                // which the responder knows, and the responder nevertheless schedules (and re-sends, lowest first,
-                // capped at 100 segments) history the requester already holds. Any other stall keeps the generic
-                // signature.
+            let caches_now: Vec<(Id, u64)> = ca
+                .heads()
+                .iter()
+                .chain(cb.heads().iter())
+                .map(|h| (*h.id.as_array(), h.max_cut.get()))
+                .collect();
+            if caches_now == caches_before {
+                // Nothing changed at all: requester graph, both peer caches. The next session is a pure function of
+                // that state, so it will be identical: the sync is livelocked.
+                // Listed finding (F20): every head of the requester is known to the responder, which nevertheless
+                // schedules (lowest first, capped at 100 segments) history the requester already holds. A livelock
+                // in any other situation keeps the generic signature.
                 let heads_known = a.heads().map(|h| h.iter().all(|x| b_ids.contains(&x.0))).unwrap_or(false);
-                // an untruncated sample names every requester head that is not already below a peer-cache head
-                let sample_is_cache = s.sample_len < 100;
-                let sig = if heads_known && sample_is_cache {
+                let sig = if heads_known {
                     "C16: sync stalled: the responder keeps re-sending held history although every head of the requester (its whole sample) is known to it"
                 } else {
                     "C16: repeated sync sessions deliver no missing command (stalled)"
@@ -320,13 +331,17 @@ pub fn drain<SA: StorageProvider, SB: StorageProvider>(
                 return Err(Failure::new(
                     sig,
                     format!(
-                        "{detail}; {} sessions without progress, {common0} shared commands; requester heads known to responder: {heads_known}; sample {} vs {} cache heads",
-                        out.zero_progress,
-                        s.sample_len,
-                        ca.heads().len()
+                        "{detail}; session changed neither the requester's graph nor either peer cache; {} sessions without progress so far, {common0} shared commands; requester heads known to responder: {heads_known}",
+                        out.zero_progress
                     ),
                 ));
             }
+            ensure!(
+                out.zero_progress <= common0 + 10,
+                "C16: repeated sync sessions deliver no missing command (stalled)",
+                "{detail}; {} sessions without progress, {common0} shared commands",
+                out.zero_progress
+            );
             last_was_zero = true;
             // Listed finding: the responder located none of the requester's sampled commands and re-sent
             // only commands the requester already holds; progress resumes through the peer cache. Soft: the
@@ -518,7 +533,7 @@ pub fn run(ctx: &Ctx, which: &str) -> ! {
          missing; finally A >= B and (bidirectional) identical heads/facts/hello; non-trivial = more than 2 sessions or a \
          multi-response session",
         || sync_case(60, 2),
-        ctx.pick(700, 50_000),
+        ctx.pick(700, 16_000),
         check,
     );
     rep.explore(
@@ -526,7 +541,7 @@ pub fn run(ctx: &Ctx, which: &str) -> ! {
         "same with <= 400 recipe steps dominated by runs (hundreds to thousands of commands: beyond 100 commands per response and \
          100 segments per session)",
         || sync_case(400, 14),
-        ctx.pick(24, 1_500),
+        ctx.pick(24, 500),
         check,
     );
     rep.finish()
